@@ -438,3 +438,109 @@ def c10(res, tier, seed, replay):
                             "recorded maximum node id, node-id table, free list and counters are dumped through hook H1 and TLC "
                             "evaluates GraphWF and ShardWF on every line")
     res.assumptions += ["degree bounds below 32 cannot be configured through validation and are not exercised"]
+
+
+# ==========================================================================
+# C12: shard manager (ShardMgr.tla design + forced schedules + MgrMonitor.tla)
+
+def expect_design_violation(res, module, cfg, invariant, what):
+    """Design-level binding self-test: with one switch flipped TLC must find the expected violation."""
+    r = vlib.tlc_model_check(module, cfg, name="neg-" + cfg, timeout=900)
+    if r["ok"] or invariant not in (r["raw"] or ""):
+        raise Inconclusive(f"design self-test failed: {module}/{cfg} should violate {invariant}")
+    res.coverage.setdefault("design_selftests", []).append(f"{what}: TLC reports {invariant} violated ({cfg})")
+
+
+def write_behaviours(behs, path):
+    with open(path, "w") as f:
+        for b in behs:
+            f.write(json.dumps(b) + "\n")
+
+
+@prop("C12", "model_checking")
+def c12(res, tier, seed, replay):
+    vlib.build_harness()
+    if replay:
+        meta = json.load(open(os.path.join(replay, "violation.json")))["meta"]
+        behs = [json.loads(l) for l in open(os.path.join(replay, meta["behaviours"]))]
+        runs = [("replay", behs, meta.get("backups", False))]
+    else:
+        design_check(res, "ShardMgr", "ShardMgr.cfg")
+        design_check(res, "ShardMgr", "ShardMgr.live.cfg")
+        expect_design_violation(res, "ShardMgr", "ShardMgr.pinned.cfg", "NoDeadlock",
+                                "lock order of the idle-unload goroutine as it was before the repair")
+        expect_design_violation(res, "ShardMgr", "ShardMgr.noguard.cfg", "NeverOpenTwice",
+                                "repair without the 'only remove our own entry' guard")
+        n = 400 if tier == "quick" else 6000
+        behs = vlib.tlc_simulate("ShardMgr", "ShardMgr.sim.cfg", n, 120, seed)
+        res.coverage["behaviours_generated"] = len(behs)
+        half = len(behs) // 2
+        runs = [("plain", behs[:half], False), ("backups", behs[half:], True)]
+    tot_drift = 0
+    for name, bs, backups in runs:
+        bf = os.path.join(vlib.subdir("traces"), f"mgr-{name}.behaviours")
+        write_behaviours(bs, bf)
+        out = os.path.join(vlib.subdir("traces"), f"mgr-{name}.ndjson")
+        args = ["mgr", "-behaviours", bf, "-out", out, "-dir", vlib.subdir("mgr-" + name), "-step-ms", "1500"]
+        if backups:
+            args.append("-backups")
+        rc, so, se = vlib.run_vh(args, timeout=3000)
+        if rc != 0:
+            if CRASH_RE.search(se):
+                errf = out + ".stderr"
+                open(errf, "w").write(se)
+                res.violation(f"shard manager replay crashed: {se.strip().splitlines()[0][:200]}", files=[bf, errf],
+                              meta={"behaviours": os.path.basename(bf), "backups": backups})
+                continue
+            raise Inconclusive(f"mgr driver failed rc={rc}: {se[-1500:]}")
+        stats = json.loads(so.strip().splitlines()[-1])
+        tot_drift += stats["drifted"]
+        res.add("behaviours_replayed", stats["behaviours"])
+        res.coverage.setdefault("drift_samples", []).extend(stats["drift_samples"][:2])
+        # an unconfirmed stuck (some participant not parked on a lock) is inconclusive
+        with open(out) as f:
+            for line in f:
+                if '"ev":"Stuck"' in line and json.loads(line).get("confirmed") != 1:
+                    raise Inconclusive("a call did not return but the goroutine dump does not show every participant "
+                                       "parked on a lock: " + line[:400])
+        tv = vlib.tlc_trace("MgrMonitor", out, known=known_names(res.pid).keys(), name="mgr-" + name)
+        res.add("traces_validated_against_impl", stats["behaviours"])
+        res.add("trace_events", tv["lines"])
+        if not tv["accepted"]:
+            n = tv["matched"] + 1
+            line = vlib.read_line(out, n) or ""
+            # the behaviour the offending line belongs to
+            beh = None
+            with open(out) as f:
+                for i, ln in enumerate(f, 1):
+                    if i > n:
+                        break
+                    if '"ev":"NewBehaviour"' in ln:
+                        beh = json.loads(ln)
+            dumps = [os.path.join(vlib.subdir("mgr-" + name), x) for x in os.listdir(vlib.subdir("mgr-" + name)) if x.endswith(".dump")][:1]
+            res.violation(f"shard manager ({name}): no monitor action explains line {n}: {summarize_event(line)} "
+                          f"in behaviour {beh['b'] if beh else '?'}: {' '.join(beh['steps']) if beh else ''}"[:1500],
+                          files=[bf, out] + dumps, meta={"behaviours": os.path.basename(bf), "backups": backups, "line": n})
+        else:
+            sample_from_trace(res, out, ("NewBehaviour",), cap=1)
+            results = [{"run": {"name": "mgr-" + name}, "trace": out, "tv": tv}]
+            if name in ("plain", "replay"):
+                def mut(e):
+                    if e["ev"] == "Closed":
+                        e["ev"] = "Skip"
+                        return True
+                    return False
+                # dropping a Closed event must make a later Opened / Remove unacceptable
+                try:
+                    binding_selftest(res, results, lambda e: e["ev"] == "Closed" and not e.update({"ls": e["ls"] + 7}),
+                                     module="MgrMonitor", what="identity of a closed shard altered")
+                except Inconclusive:
+                    raise
+    res.coverage["behaviours_with_protocol_drift"] = tot_drift
+    res.coverage["rule"] = ("TLC checks ShardMgr.tla exhaustively (3 requests, 2 deletions, timer at any time; safety, deadlock "
+                            "freedom, liveness under fairness) and, in simulation mode, generates behaviours that are forced on a "
+                            "real cluster.ShardManager through the H3 yield points (idle timer fired on demand, with and without "
+                            "backups); the recorded open/close/run/remove/return events are validated by TLC against MgrMonitor.tla; "
+                            "a call that never returns is confirmed by a goroutine dump; a final probe request must succeed")
+    res.assumptions += ["one shard directory; requests are forced at the granularity of the H3 yield points",
+                        "protocol-level disagreement between code and ShardMgr.tla with all monitors passing is reported as drift, not as a violation"]
